@@ -76,24 +76,57 @@ Theorem C04_corrupted_body_rejected :
 Proof. exact corrupted_body_rejected. Qed.
 Print Assumptions C04_corrupted_body_rejected.
 
-(* the block that does pass ProcessBlock's gates (not held, extends the tip, IsMerkleRootValid): the
-   second root comparison - which sits AFTER blocks.Add and HandleHeaders - never fails; the header is
-   added and announced; the transactions selected by the loop (txs, a subsequence of the block) get, in
-   block order, one notification each of the right kind with that header, depth 0, their true index and
-   a proof the client verifier accepts *)
+(* the block that does pass ProcessBlock's gates (not held, extends the tip, IsMerkleRootValid), in ANY state
+   of the node and of its storage - in particular whatever the per-height tx id files already list, e.g.
+   after a crash in the middle of an earlier processing of the same block - and under any output-fetch
+   faults: the second root comparison - which sits AFTER blocks.Add and HandleHeaders - never fails; the
+   header is added and announced; the transactions to notify are `selected` (the already delivered ones as
+   updates, the other relevant ones as new; the files play no part); what is delivered is, in block order,
+   a prefix of them - all of them when no output fetch fails - each of the right kind with that header,
+   depth 0, its true index and a proof the client verifier accepts *)
+Theorem C04_processed_block :
+  forall (s : nstate) (hid prev : Z) (hroot : mnode) (body : list (Z * bool)),
+    NoDup (map fst body) -> zlen body < 2 ^ 63 ->
+    existsb (fun h => fst h =? hid) (n_chain s) || (hid =? 0) = false ->
+    prev = n_tip s ->
+    is_merkle_root_valid hroot (map fst body) = true ->
+    let txs := selected (n_insync s) (n_unconf s) (n_mempool s) body in
+    exists s' code evs,
+      process_block s hid prev hroot body false = (s', code, EHeaders (n_height s + 1) hid :: evs) /\
+      n_chain s' = (hid, hroot) :: n_chain s /\
+      Forall2 (conf_ok hid hroot (map fst body)) (take (length evs) txs) evs /\
+      (code = OK \/ code = ERR) /\
+      (no_fault (n_faults s) txs -> code = OK /\ length evs = length txs).
+Proof. exact processed_block. Qed.
+Print Assumptions C04_processed_block.
+
+(* the complete case on its own: no output fetch fails *)
 Theorem C04_accepted_block :
   forall (s : nstate) (hid prev : Z) (hroot : mnode) (body : list (Z * bool)),
     NoDup (map fst body) -> zlen body < 2 ^ 63 ->
     existsb (fun h => fst h =? hid) (n_chain s) || (hid =? 0) = false ->
     prev = n_tip s ->
     is_merkle_root_valid hroot (map fst body) = true ->
-    exists unconf mempool txs evs,
-      process_block s hid prev hroot body false =
-        (NS ((hid, hroot) :: n_chain s) unconf mempool (n_insync s), OK, EHeaders (n_height s + 1) hid :: evs) /\
-      Forall2 (conf_ok hid hroot (map fst body)) txs evs /\
-      (map fst txs `sublist_of` map fst body).
+    let txs := selected (n_insync s) (n_unconf s) (n_mempool s) body in
+    no_fault (n_faults s) txs ->
+    exists s' evs,
+      process_block s hid prev hroot body false = (s', OK, EHeaders (n_height s + 1) hid :: evs) /\
+      n_chain s' = (hid, hroot) :: n_chain s /\
+      Forall2 (conf_ok hid hroot (map fst body)) txs evs.
 Proof. exact accepted_block. Qed.
 Print Assumptions C04_accepted_block.
+
+(* alignment for reprocessed blocks: two node states that differ ONLY in what the per-height tx id files
+   already list give the same outcome class and exactly the same notifications for a block (any block, any
+   body) - proofs and transactions stay paired whatever an interrupted earlier processing recorded *)
+Theorem C04_reprocessed_block_aligned :
+  forall (s : nstate) (hid prev : Z) (hroot : mnode) (body : list (Z * bool)) (files : list (Z * list Z)),
+    let s2 := NS (n_chain s) (n_unconf s) (n_mempool s) (n_insync s) (n_saved_chain s) (n_saved_unconf s)
+                 files (n_faults s) in
+    snd (fst (process_block s2 hid prev hroot body false)) = snd (fst (process_block s hid prev hroot body false)) /\
+    snd (process_block s2 hid prev hroot body false) = snd (process_block s hid prev hroot body false).
+Proof. exact reprocessed_block_aligned. Qed.
+Print Assumptions C04_reprocessed_block_aligned.
 
 (* Non-vacuity (every example is a CLOSED computation: vm_compute on explicit small inputs only).
    A 7-transaction block (odd count at level 0) with 3 registered transactions - the first, a middle one
@@ -146,6 +179,23 @@ Example C04_example_run :
   c04_monitor C04_example_ops (run true C04_example_ops) = None /\
   map (fun o => firstn 4 o) (run true C04_example_ops)
     = [[0; 0; 0; 1]; [0; 0; 0; 0]; [0; 0; 0; 1]; [0; 1; 1; 4]; [1; 1; 1; 0]; [0; 2; 2; 3]].
+Proof. vm_compute. repeat split; reflexivity. Qed.
+
+(* a block cut short by an output-fetch fault after its first pass recorded the new relevant txids in the
+   per-height file (node not in sync: headers unsaved), hard crash, restart, the blocks processed again:
+   tx 1 (new, already recorded), tx 5 (delivered unconfirmed, persisted by block 1) and tx 3 (the one whose
+   fetch failed) all get their confirmation with their own index (1, 3, 4) *)
+Example C04_example_abort_ops : list op :=
+  [OSeen 5 true; OBlock 1 0 [9] [(9, false)] false; OFault [3];
+   OBlock 2 1 [2; 1; 4; 5; 3] [(2, false); (1, true); (4, false); (5, true); (3, true)] false;
+   OFault []; ORestart false false;
+   OBlock 1 0 [9] [(9, false)] false;
+   OBlock 2 1 [2; 1; 4; 5; 3] [(2, false); (1, true); (4, false); (5, true); (3, true)] false].
+Example C04_example_abort :
+  c04_valid C04_example_abort_ops = true /\
+  c04_monitor C04_example_abort_ops (run false C04_example_abort_ops) = None /\
+  map (fun o => firstn 4 o) (run false C04_example_abort_ops)
+    = [[0; 0; 0; 1]; [0; 1; 1; 1]; [0; 1; 1; 0]; [1; 2; 2; 3]; [0; 2; 2; 0]; [0; 0; 0; 0]; [0; 1; 1; 1]; [0; 2; 2; 4]].
 Proof. vm_compute. repeat split; reflexivity. Qed.
 
 (* Recorded note (not a violation of the statement): without the hypothesis "txids pairwise distinct" the
